@@ -428,3 +428,34 @@ Theorem C07_source_forced_retries :
     G.run_test_instance_total_attempts (G.build_force_retries b) own = n + 1.
 Proof. exact gen_forced_retries. Qed.
 Print Assumptions C07_source_forced_retries.
+
+(* ---- platform guards (C06, C18) *)
+
+(* C06: the platform `continue`s at the head of the loop over the overrides in TestSettings::new (the guards in front of
+   the filterset test), as a function of the override's FinalConfig and the test binary's build platform:
+   host_eval AND (host_test_eval for a host binary, target_eval for a target binary) -- [MO.platform_ok], the platform
+   half of [MO.applies] (C06_winner_applies, C06_first_applicable ...). Dropping host_eval for host tests falsifies it. *)
+Theorem C06_source_override_platform_guard :
+  forall st p, G.override_platform_guard st p = MO.platform_ok (state_to_model st) (is_host p).
+Proof. exact gen_override_platform_guard_is_model. Qed.
+Print Assumptions C06_source_override_platform_guard.
+
+(* ... and it is the platform part of [MO.skips], the function TestSettings::new's model folds over the overrides. *)
+Theorem C06_source_override_skips :
+  forall e t st o,
+    MO.skips e t (state_to_model st, o) =
+    negb (G.override_platform_guard st (platform_of (MO.t_host t)))
+    || match MO.filter_of o with Some f => negb (MO.e_filter e f (MO.t_id t)) | None => false end.
+Proof. exact gen_override_skips_is_model. Qed.
+Print Assumptions C06_source_override_skips.
+
+(* C18: CompiledProfileScripts::is_enabled -- [MSc.rule_matches], the function C18's "scripts run iff needed" theorems
+   are about, is the source's three platform guards followed by the filterset. Dropping host_test_eval falsifies it. *)
+Theorem C18_source_script_platform_guard :
+  forall st p flt setup id,
+    MSc.rule_matches
+      (MSc.mkrule (G.FinalConfig_host_eval st) (G.FinalConfig_host_test_eval st) (G.FinalConfig_target_eval st) flt setup)
+      (MSc.mkq id (is_host p)) =
+    G.script_platform_guard st p && match flt with Some f => f (MSc.mkq id (is_host p)) | None => true end.
+Proof. exact gen_script_platform_guard_is_model. Qed.
+Print Assumptions C18_source_script_platform_guard.
